@@ -40,12 +40,15 @@ func verifRoundTrip(v *vrt.T, text string) {
 	}
 	v.Assert(n2.Equal(n1), "formatted script defines the same AST")
 	f2 := Format(n2)
-	n3, err := Parse(f2)
-	v.Assert(err == nil, "twice formatted script parses")
-	if err != nil {
-		return
+	if f2 != f1 {
+		// not yet a fixed point: one further pass must be
+		n3, err := Parse(f2)
+		v.Assert(err == nil, "twice formatted script parses")
+		if err != nil {
+			return
+		}
+		v.Assert(Format(n3) == f2, "formatting is stable after one further pass")
 	}
-	v.Assert(Format(n3) == f2, "formatting is stable after one further pass")
 	v.Reach("end")
 }
 
